@@ -39,6 +39,8 @@ def expect(policy, override, bad, scanned):
         "is_valid": not (f["fail"] and reached),
         "printed": bool(f["print"] and reached),
         "lines_run": lines_run,
-        "returned_must": [n for n in lines_run if n not in bad],
+        # "the line does not match (unless validation-mode says match)": with match the offending lines are
+        # returned too (left open for the line on which a 'stop' or 'raise' ends the run)
+        "returned_must": [n for n in lines_run if n not in bad or (match and not f["stop"] and not f["raise"])],
         "returned_must_not": [] if match else [n for n in lines_run if n in bad],
     }
